@@ -63,8 +63,11 @@ class Rig:
         cache = CharacteristicCacheMemory()
         cache.async_create_or_update_map(DEV_ID.upper(), 1, accessories(), KEY.hex(), last)
         self.controller = BleController(cache)
-        self.pairing = self.controller.load_pairing("alias", {"Connection": "BLE", "AccessoryPairingID": DEV_ID.upper(), "AccessoryAddress": "00:11:22:33:44:55",
-                                                              "AccessoryLTPK": "00" * 32, "iOSPairingId": "x", "iOSDeviceLTSK": "00" * 32, "iOSDeviceLTPK": "00" * 32})
+        self.pairing_data = {"Connection": "BLE", "AccessoryPairingID": DEV_ID.upper(), "AccessoryAddress": "00:11:22:33:44:55",
+                             "AccessoryLTPK": "00" * 32, "iOSPairingId": "x", "iOSDeviceLTSK": "00" * 32, "iOSDeviceLTPK": "00" * 32}
+        self.pairing = self.controller.load_pairing("alias", self.pairing_data)
+        self.has_discovery = False
+        self.first_pairing_id = id(self.pairing)
         self.log = []
         self.pairing.dispatcher_connect(lambda ev: self.log.append(dict(ev)))
         self.model_last = last
@@ -184,6 +187,28 @@ def step(rig: Rig, sym, arg=None):
         rig.model_last_b = g
         rig.neighbour_payloads.append((g, payload))
         return out, True
+    if sym in ("regular-adv", "reload-pairing"):
+        if sym == "reload-pairing" and not rig.has_discovery:
+            return [], False  # (a pairing re-loaded before the accessory's regular advertisement was ever seen starts from the cache: outside this property)
+        before = rig.state()
+        if sym == "regular-adv":
+            # the accessory's regular (0x06) advertisement carrying its current state number: a discovery exists from now on
+            from vt.props.c19 import mfr_data
+
+            rig.feed(mfr_data(DEV_ID, gsn=max(rig.model_last, 1), cn=1))
+            rig.has_discovery = True
+        else:
+            # the application loads the pairing again on the same controller (reload, set-up retry): what was accepted stays accepted
+            rig.pairing = rig.controller.load_pairing("alias", rig.pairing_data)
+            rig.pairing.dispatcher_connect(lambda ev: rig.log.append(dict(ev)))
+        rig.loop.run_until_idle()
+        after = rig.state()
+        out = []
+        if len(rig.log) != before[1]:
+            out.append((f"{sym}-reaches-listeners", {"before": before, "after": after}))
+        if after[0] is not None and before[0] is not None and after[0] < rig.model_last and sym == "reload-pairing":
+            out.append(("reloaded-pairing-forgets-the-last-accepted-state-number", {"tracked": after[0], "last_accepted": rig.model_last}))
+        return out, True
     if sym == "db-swap":
         # the accessory's configuration changed and its database was fetched again: from now on broadcasts are decoded against the NEW one
         rig.chars = dict(CHARS2) if rig.chars == CHARS else dict(CHARS)
@@ -260,6 +285,16 @@ def case_history(p):
 CASES = {"history": case_history}
 
 
+def disc_state(rig):
+    """what the controller's discovery for this accessory holds (the pairing may share that object or hold its own): part of the canonical state"""
+    d = rig.controller.discoveries.get(DEV_ID)
+    if d is None:
+        return None
+    from vt import canon as _c
+
+    return (getattr(d.description, "state_num", None), d.description is rig.pairing.description, _c.canon(rig.pairing, depth=1, skip=("controller", "_accessories_state", "pairing_data", "_pairing_data", "listeners", "availability_listeners", "config_changed_listeners", "device", "client", "description", "ble_advertisement", "_last_seen")))
+
+
 def seen_iids(rig):
     """iids for which a broadcast was accepted so far (what a per-iid memo inside the pairing could hold): part of the canonical state"""
     return {k[1] for ev in rig.log for k in ev}
@@ -290,7 +325,7 @@ def _bfs(item, seed, tier):
                         acc.violation(sig, "history", {"base": base, "history": [list(x) for x in h2]}, detail)
                     acc.case(key=("h", base, h2), outcome="violation" if v else f"last={'moved' if rig.model_last != base else 'same'}", sample={"base": base, "history": [s for s, _ in h2]})
                     acc.traces += 1
-                    key = (rig.state()[0], rig.model_last, rig.state_b()[0], rig.model_last_b, len(rig.neighbour_payloads) > 0, rig.chars == CHARS, tuple(sorted(seen_iids(rig))))
+                    key = (rig.state()[0], rig.model_last, rig.state_b()[0], rig.model_last_b, len(rig.neighbour_payloads) > 0, rig.chars == CHARS, tuple(sorted(seen_iids(rig))), rig.has_discovery, id(rig.pairing) != rig.first_pairing_id, disc_state(rig))
                     if v or key in seen:
                         continue
                     seen[key] = h2
@@ -326,7 +361,7 @@ def run(ctx):
     depth = 2 if quick else 5
     work = [(b, depth, SYMS) for b in bases]
     # deeper on the symbols that carry state across steps (database replacement, the neighbour pairing, per-characteristic history)
-    CARRY = ["+1", "+1:iid12", "+1:iid15", "db-swap", "neighbour:+1", "cross:from-neighbour", "same", "old:1", "unknown-iid"]
+    CARRY = ["+1", "+1:iid12", "+1:iid15", "db-swap", "neighbour:+1", "cross:from-neighbour", "same", "old:1", "unknown-iid", "regular-adv", "reload-pairing", "-1"]
     work += [(b, 4 if quick else 6, CARRY) for b in ([300] if quick else [1, 300, 65500])]
     ctx.pmap(_bfs, work)
     flips = []
